@@ -395,7 +395,8 @@ impl<'a> Builder<'a> {
                         abs_targets.push(json!([
                             [of_str(&name), of_str(&resolved), of_str(&sha256hex(resolved.as_bytes()))],
                             len,
-                            did
+                            did,
+                            of_str(&h)
                         ]));
                     }
                     doc.insert("targets".into(), Value::Object(tmap));
